@@ -4,6 +4,7 @@ package props
 
 import (
 	"fmt"
+	"slices"
 	"sort"
 
 	"github.com/creachadair/mds/heapq"
@@ -26,8 +27,9 @@ func init() {
 					"After EVERY op: Len/IsEmpty, multiset through Each, Front held and minimal under the current comparison, Peek(0)==Front, Remove(i) returns what Peek(i) showed, Add's returned index holds the element, Set does not alias or modify its argument; the drain is non-decreasing. " +
 					"A violation of the real run is attributed to known finding F1 iff it disappears in the counterfactual run and every parent index the hook saw was i/2 or (i-1)/2; any violation in a counterfactual run is a VIOLATION. " +
 					"Reorder to an unrelated order: every heap arrangement of 7 (8 thorough) distinct keys x every ranking as the new order, random ones for 8..24 elements, drain checked under the new order (counterfactual switch on). Very large queues: 262143..1.2 M elements (4 M thorough) put in by Set and Add and drained (count, conservation, drain order with the counterfactual switch on). Long-lived queues: one instance carries 120 000 (500 000 thorough) operations under light observation. heapq.Sort: every input of length <= 7 over 4 values (exhaustive) and random inputs up to 2000. " +
+					"heapq.Sort: every input of length <= 7 over 4 keys, random inputs to 20000, and inputs in order under the comparator in use except for one displaced element (smallest last, largest first, last two exchanged, middle to end, ...) for every length 0..300 and a few to 70001. " +
 					"distinct = hash of the op list; non-trivial = the queue reached >= 16 elements or an interior Remove(i) occurred",
-				Required:     []string{"histories", "histories_size_ge16", "interior_removes", "pushup_even_index_calls", "reorders", "sort_inputs", "drains", "large_queue_histories", "big_element_histories", "sparse_observation_histories", "long_lived_queue_runs", "very_large_queues", "reorder_to_unrelated_order_cases", "histories_with_bound_method_values_or_moved_struct"},
+				Required:     []string{"histories", "histories_size_ge16", "interior_removes", "pushup_even_index_calls", "reorders", "sort_inputs", "sort_inputs_one_element_out_of_place", "drains", "large_queue_histories", "big_element_histories", "sparse_observation_histories", "long_lived_queue_runs", "very_large_queues", "reorder_to_unrelated_order_cases", "histories_with_bound_method_values_or_moved_struct"},
 				Exhaustive:   false,
 				Assumptions:  []string{"reference: map of held {Key,Tag} elements; minimality is checked against all held elements under the comparison currently installed", "known finding F1 is excused only through the counterfactual switch in heapq/verif_on.go"},
 				CoverPkgs:    []string{"github.com/creachadair/mds/heapq"},
@@ -349,6 +351,62 @@ func runC05(c *fw.Ctx) {
 			vs[i] = Elem{Key: r.IntN(kr), Tag: i + 1}
 		}
 		c05sort(c, vs, r.IntN(8))
+	}
+	idx += 3000
+	// inputs that are in order under the comparator in use except for one
+	// displaced element (the shape left by appending to sorted data, or by
+	// changing one priority), for every length 0..300 and a few long ones
+	lens := make([]int, 0, 40)
+	for n := c.Block; n <= 300; n += c.NBlocks {
+		lens = append(lens, n)
+	}
+	lens = append(lens, []int{1000, 4097, 33000, 70001}[c.Block%4])
+	for li, n := range lens {
+		if !c.Begin(idx + li) {
+			continue
+		}
+		r := c.Rng()
+		dir := (n + li) % 8
+		cmp := heapCmp(dir)
+		base := make([]Elem, n)
+		kr := []int{3, 50, 1 << 20}[n%3]
+		for i := range base {
+			base[i] = Elem{Key: r.IntN(kr) - kr/3, Tag: i + 1}
+		}
+		sort.SliceStable(base, func(i, j int) bool { return cmp(base[i], base[j]) < 0 })
+		for shape := 0; shape < 9; shape++ {
+			vs := append([]Elem(nil), base...)
+			if n >= 2 {
+				move := func(from, to int) { // take the element at from and put it at to
+					e := vs[from]
+					copy(vs[from:], vs[from+1:])
+					copy(vs[to+1:], vs[to:n-1])
+					vs[to] = e
+				}
+				switch shape {
+				case 1: // the smallest element last
+					move(0, n-1)
+				case 2: // the largest element first
+					move(n-1, 0)
+				case 3: // the last two exchanged
+					vs[n-1], vs[n-2] = vs[n-2], vs[n-1]
+				case 4: // the first two exchanged
+					vs[0], vs[1] = vs[1], vs[0]
+				case 5: // one element from the middle moved to the end
+					move(n/2, n-1)
+				case 6: // the last element moved into the middle
+					move(n-1, n/2)
+				case 7: // two ascending runs
+					slices.Reverse(vs)
+					slices.Reverse(vs[:n/2])
+					slices.Reverse(vs[n/2:])
+				case 8: // descending
+					slices.Reverse(vs)
+				}
+			}
+			c05sort(c, vs, dir)
+			c.Add("sort_inputs_one_element_out_of_place", 1)
+		}
 	}
 }
 
